@@ -445,8 +445,20 @@ def r_pair(ctx):
                 if not pol and atom[0] == 'sub' and atom[1][0] == 'v' and atom[1][1] == 'latter_map' and \
                         strip_int(atom[2]) == strip_int(u):
                     okk = True
-    # witness: no deletion of a key of the latter map at all (the clean-up was dropped)
-    _tri(run, okk, not key_del, 'R-PAIR', f, 'emptied-key-deleted', key_del[0][0].lineno if key_del else f.node.lineno,
+    # witnesses: no deletion of a key at all (the clean-up was dropped); emptiness decided by any(...), which is also false
+    # for a list that still holds vertex 0
+    falsy0 = False
+    for nd, t in key_del:
+        for atom, pol in ctx.conds(f, nd):
+            if is_call(atom, 'builtins.any') and not pol:
+                falsy0 = True
+    if falsy0 and not okk:
+        run.refute('R-PAIR', f, 'emptied-key-deleted', key_del[0][0].lineno,
+                   'the entry of the latter map is deleted when any(successors) is false: a list that still holds vertex 0 '
+                   '(index 0 is falsy) is deleted while the accessor keeps that arc', inputs='a vertex whose last remaining arc goes to vertex 0')
+        okk = None
+    if okk is not None:
+      _tri(run, okk, not key_del, 'R-PAIR', f, 'emptied-key-deleted', key_del[0][0].lineno if key_del else f.node.lineno,
               'latter_map[u] is deleted when it becomes empty',
               'a vertex whose last arc was removed keeps an empty entry in the latter map (accessor_to_latter_map would not '
               'list it): the views diverge', inputs='removing the last arc of a vertex')
